@@ -13,6 +13,8 @@ pub mod util;
 pub mod c05;
 #[cfg(kani)]
 pub mod types;
+#[cfg(all(kani, feature = "alloc"))]
+pub mod types_alloc;
 #[cfg(kani)]
 pub mod c06;
 #[cfg(kani)]
